@@ -51,6 +51,18 @@ manifest = {
     "not_applicable": not_applicable,
     "notes": "See DESIGN.md. Known findings: known_findings.json. Seeded mutations: seeded/.",
 }
+# known findings: assembled from checks/Cxx.findings.json (one list per property)
+findings = []
+for p in sorted(glob.glob(os.path.join(V, "checks", "C*.findings.json"))):
+    for f in json.load(open(p)):
+        f.setdefault("property", os.path.basename(p)[:3])
+        if f.get("status") == "fixed":
+            f["line"] = "fixed: property=%s %s %s" % (f["property"], f.get("commit", "?"), f.get("what", ""))
+        findings.append(f)
+tmp = os.path.join(V, "known_findings.json.tmp")
+json.dump({"format": "status=known entries suppress exactly the violation whose finding key equals 'key' (printed as KNOWN-FINDING); status=fixed entries suppress nothing",
+           "findings": findings}, open(tmp, "w"), indent=1)
+os.replace(tmp, os.path.join(V, "known_findings.json"))
 out = os.path.join(V, "MANIFEST.json")
 json.dump(manifest, open(out, "w"), indent=1)
 open(out, "a").write("\n")
